@@ -232,9 +232,26 @@ def confirm(ob_name, rep):
 
 def _worker(args):
     module_name, unit_name, kw = args
+    kw = dict(kw)
+    limit = kw.pop("unit_timeout_s", 600)
+    import signal
+
+    class _UnitTimeout(BaseException):
+        pass
+
+    def _alarm(signum, frame):
+        raise _UnitTimeout()
     try:
+        signal.signal(signal.SIGALRM, _alarm)
+        signal.alarm(int(limit))
         r = run_unit(module_name, unit_name, **kw)
+        signal.alarm(0)
+    except _UnitTimeout:
+        r = UnitResult(unit_name)
+        r.status = "undecided"
+        r.reason = "unit wall-clock limit of %ds exceeded" % limit
     except BaseException as e:   # never lose a unit silently
+        signal.alarm(0)
         r = UnitResult(unit_name)
         r.status = "crash"
         r.reason = repr(e)
